@@ -578,7 +578,19 @@ func objects(thorough bool) []object {
 		h := &mHeader{height: 5, txRoot: refRoot(hashes), bookkeepers: bk, sigData: sg}
 		out = append(out, object{"block", fmt.Sprintf("block ntx=%d", n), refBlock(h, txs)})
 	}
-	_ = thorough
+	if thorough {
+		for i, ss := range sigSets() {
+			t := &mTx{nonce: 7, chainID: math.MaxUint64, code: pattern(1, 0x51), sigs: ss}
+			out = append(out, object{"tx", fmt.Sprintf("tx(thorough) sigset=%d %v", i, describeSigs(ss)), refTx(t)})
+		}
+		for i, hs := range hdrSigSets() {
+			if i%3 != 0 {
+				continue
+			}
+			h := &mHeader{chainID: 1, height: math.MaxUint32, consPayload: pattern(1, 0x99), bookkeepers: hs.bks, sigData: hs.sigs}
+			out = append(out, object{"header", fmt.Sprintf("header(thorough) sigset=%d", i), refHeader(h)})
+		}
+	}
 	return out
 }
 
@@ -704,7 +716,7 @@ func main() {
 	cov["rule"] = "tx: 6 field vectors x code lengths x 43 signature sets; header: 6 field vectors x payload lengths x 64 bookkeeper/signature sets; " +
 		"block: all sequences of <=3 (thorough 5) txs from a 4-tx pool with two signature variants of one tx x up to 6 roots x 2 header sig sets; " +
 		"oversize MAX-1/MAX/MAX+1/MAX+256 by code and by signatures via 3 entry points; mutations (child processes, ulimit -v 4000000): every truncation, " +
-		"every byte x 4 replacements, every count/length prefix x blown-up values, every prefix pair x 3x3 values, on 12 tx + 8 header + 4 block objects"
+		"every byte x 4 replacements, every count/length prefix x blown-up values, every prefix pair x 3x3 values, on 12 tx + 8 header + 4 block objects (thorough: + every signature set of the tx alphabet and every third of the header alphabet)"
 	if r.NViolations() == 0 { // vacuity guard; a run that already found violations reports those (exit 1), not exit 2
 		r.Require("tx_roundtrip", "tx_identity_sig_independent", "hdr_roundtrip", "hdr_identity_sig_independent", "block_accept",
 		"block_reject_duplicate", "block_reject_wrong_root", "oversize_refused", "maxsize_accepted", "attr_roundtrip", "attr_reject",
